@@ -153,6 +153,11 @@ type Sheet struct {
 	// <row> element plus one (or 1 for the first element), which is the value a
 	// consumer infers for it. Cells keep their r.
 	OmitRowR bool `json:"omit_row_r,omitempty"`
+	// RowRFromCells (with OmitRowR) also omits the r of a <row> whose first
+	// <c> carries its own r, wherever the row stands: the cell reference names
+	// the row (round 11). The row after it, if written without r, is the one
+	// after the row its cells named.
+	RowRFromCells bool `json:"row_r_from_cells,omitempty"`
 	// OmitCellR omits the optional r attribute of a <c> (18.3.1.4) whenever the
 	// cell stands in the column after the cell written before it in its <row>
 	// element (column A for the first one), which is where a consumer puts it.
@@ -660,7 +665,8 @@ func (b *builder) sheetXML(s *Sheet) []byte {
 		prev := -1 // 0-based index of the preceding <row> element
 		for _, ro := range outRows {
 			sb.WriteString("<" + p + "row")
-			if !(s.OmitRowR && ro.r == prev+1 && len(ro.cells) > 0) {
+			named := s.OmitRowR && s.RowRFromCells && len(ro.cells) > 0 && !(s.OmitCellR && ro.cells[0].Col == 0)
+			if !(s.OmitRowR && ro.r == prev+1 && len(ro.cells) > 0) && !named {
 				fmt.Fprintf(&sb, ` r="%d"`, ro.r+1)
 			}
 			prev = ro.r
